@@ -10,6 +10,9 @@ CHECKS = {
     "C04": {"pkg": "verifx/c01", "run": "TestC04", "harness": EXPORTS, "level": "exploration"},
     "C02": {"pkg": "verifx/c02", "run": "TestC02", "harness": EXPORTS, "level": "exploration"},
     "C03": {"pkg": "verifx/c03", "run": "TestC03", "harness": EXPORTS, "level": "exploration"},
+    "C05": {"pkg": "verifx/c05", "run": "TestC05", "harness": EXPORTS2, "level": "model_checking", "quick": {"budget_s": 150}, "thorough": {"budget_s": 3000}},
+    "C06": {"pkg": "verifx/c05", "run": "TestC06", "harness": EXPORTS2, "level": "model_checking", "quick": {"budget_s": 150}, "thorough": {"budget_s": 3000}},
+    "C09": {"pkg": "verifx/c09", "run": "TestC09", "harness": EXPORTS2, "level": "model_checking", "quick": {"budget_s": 200}, "thorough": {"budget_s": 3000}},
     "C12": {"pkg": "verifx/c12", "run": "TestC12", "harness": EXPORTS, "level": "exploration"},
     "C14": {"pkg": "verifx/c14", "run": "TestC14", "harness": [], "level": "exploration"},
     "C15": {"pkg": "verifx/c15", "run": "TestC15", "harness": ["consensus"], "level": "exploration"},
